@@ -7,7 +7,7 @@ from rules import anchors, common
 
 CLAIMED = True
 TECHNIQUE = "static analysis over type-checked MIR: single-snapshot-load dominance in Log::{log,enabled,flush}, snapshot immutability/ownership inventory, build-then-store ordering, lock-free delivery cone, reloader loop/edge reachability"
-LEVEL_TEXT = """Static, all-paths decision of: (A1) each of Log::log/enabled/flush has exactly one ArcSwap::load site, outside any loop, and every access to the snapshot's fields (root, appender table, error handler) goes through that one guard; (A2) Logger holds one Arc<ArcSwap<snapshot>>, the snapshot owns tree and appender table, has no interior mutability of its own, its aggregate is built only in the constructor and the tree's mutator is called only from the constructor and itself; (A3) Handle::set_config builds a complete snapshot from the new config before the single store, which lies on every path to return; (A4) the delivery cone of Log::log (cut at dyn Append/Filter) acquires no lock, so a re-entrant set_config cannot self-deadlock; (A5) reloader control flow: in run the Err arm returns to the loop head and only Ok(None) leaves; in run_once set_config is dominated by the Ok edge of Format::parse and control-dependent on the text having changed, the unchanged-mtime/unchanged-text edges return Ok(Some(rate)) without reaching the handle, and the new rate is the parsed config's refresh_rate(). arc-swap's own guarantees, real interleavings and file-system timestamps are not decided. (A12) no un-discharged panic site in what the refresh thread itself runs (the loop, run_once, reading the file, the error reporter); parsing, building and the swap are inventoried under C14.K8 / C13.V4. (A6, cont.) the reloader polls the path it was given (no canonicalize/read_link); (A1, cont.) no function called from log/enabled/flush loads the configuration again; (A13) raw-to-runtime fidelity (C14.K7)."""
+LEVEL_TEXT = """Static, all-paths decision of: (A1) each of Log::log/enabled/flush has exactly one ArcSwap::load site, outside any loop, and every access to the snapshot's fields (root, appender table, error handler) goes through that one guard; (A2) Logger holds one Arc<ArcSwap<snapshot>>, the snapshot owns tree and appender table, has no interior mutability of its own, its aggregate is built only in the constructor and the tree's mutator is called only from the constructor and itself; (A3) Handle::set_config builds a complete snapshot from the new config before the single store, which lies on every path to return; (A4) the delivery cone of Log::log (cut at dyn Append/Filter) acquires no lock, so a re-entrant set_config cannot self-deadlock; (A5) reloader control flow: in run the Err arm returns to the loop head and only Ok(None) leaves; in run_once set_config is dominated by the Ok edge of Format::parse and control-dependent on the text having changed, the unchanged-mtime/unchanged-text edges return Ok(Some(rate)) without reaching the handle, and the new rate is the parsed config's refresh_rate(). arc-swap's own guarantees, real interleavings and file-system timestamps are not decided. (A12) no un-discharged panic site in what the refresh thread itself runs (the loop, run_once, reading the file, the error reporter); parsing, building and the swap are inventoried under C14.K8 / C13.V4. (A6, cont.) the reloader polls the path it was given (no canonicalize/read_link); (A1, cont.) no function called from log/enabled/flush loads the configuration again; (A13) raw-to-runtime fidelity (C14.K7). (A12, cont.) the refresh thread is spawned on the default stack."""
 LEVEL_NOTE = "Trusted: rustc MIR/callee resolution; arc-swap (atomic swap, guard keeps the old snapshot alive, store does not wait on readers); std fs timestamps."
 EXPLANATION = """Decided: A1 one snapshot per call, A2 immutable self-contained snapshot, A3 build-then-store, A4 no lock across delivery, A5 reloader loop and edges. Undecided: arc-swap internals, actual interleavings, file-system timestamp behaviour."""
 DECIDED = ["A1 single load dominating all snapshot accesses", "A2 snapshot immutability/ownership", "A3 complete build before single store", "A4 lock-free delivery", "A5 reloader control flow", "A6 the reloader is started with the text that was loaded and a modification time read right beside it", "A7 changes detected through the path", "A8 remembered text is the text last read", "A9 whole-document parsers", "A10 the lossy build leaves no dangling reference (C13.V2 re-evaluated)"]
@@ -259,6 +259,11 @@ def rule_thread_survives(ctx, p, cfg, rid="A12"):
         r.require("handle_error" in cone, "reporter-in-cone", detail="the error reporter is part of what the thread runs")
         st = panics.check_cone(r, p, cone, "C15")
         ctx.extra.setdefault("panic_inventory", {})[cfg] = dict(st, cone=len(cone))
+        # ... nor of a stack it was given too little of: parsing and building recurse with the document's nesting, so the thread
+        # runs on the default stack, like the caller of init_file did for the same file
+        sz = [(g, c) for g in p.fns.values() if g.path.startswith("config::file::") for c in g.calls() if (c.callee or "").rsplit("::", 1)[-1] == "stack_size"]
+        r.require(not sz, "default-stack", fn=(sz[0][0] if sz else None), site=(sz[0][1].at if sz else None), detail="the refresh thread is spawned without a stack_size",
+                  fail_detail="the refresh thread is given an explicit stack size: a document that init_file loaded on the caller's stack can overflow it on reload, which aborts the process")
 
 def run_cfg(ctx, p, cfg):
     if "config_parsing" in p.meta.get("features", []):
